@@ -438,6 +438,82 @@ Section Rounds.
   Proof. intros rs L0 H. eapply okp_no_index_panic. apply prounds_ok. exact H. Qed.
 End Rounds.
 
+(* ------------------------------------------------------------------ the path consists of inserted nodes *)
+Section PathNodes.
+  Variable dbg ovf : bool.
+  Variable nl nr : N.
+  Variable data : list Z.
+  Hypothesis Hm : matrix_ok nl nr data = true.
+
+  Definition FullOk (ins : list node) (L : plat) : Prop := forall r n, In n (row (p_full L) r) -> In n ins.
+
+  Lemma pinsert_full : forall ins L n L' c, FullOk ins L -> In n ins ->
+    pinsert dbg ovf nl nr data L n = POk (L', c) -> FullOk ins L'.
+  Proof.
+    intros ins L n L' c HF Hn H. unfold pinsert in H.
+    destruct (pconnect_node dbg ovf nl nr data L n) as [[best c0]| | |]; cbn [pbind fst snd] in H; try discriminate H.
+    unfold push_idx in H.
+    destruct (push_at (p_ends L) (nend n) _) as [e|]; cbn [pbind] in H; [|discriminate H].
+    destruct (push_at (p_idx L) (nend n) _) as [i|]; cbn [pbind] in H; [|discriminate H].
+    destruct (push_at (p_full L) (nend n) n) as [f|] eqn:Ef; cbn [pbind] in H; [|discriminate H].
+    inversion H; subst. destruct (push_at_spec _ _ _ _ Ef) as (_ & Rf & Of).
+    intros r m Hm'. cbn [p_full] in Hm'. destruct (Nat.eq_dec r (nend n)) as [->|Hne].
+    - rewrite Rf in Hm'. apply in_app_or in Hm'. destruct Hm' as [Hm'|[<-|[]]]; [exact (HF _ _ Hm') | exact Hn].
+    - rewrite (Of r Hne) in Hm'. exact (HF _ _ Hm').
+  Qed.
+
+  Lemma pinsert_all_full : forall ins ns L L' cs, FullOk ins L -> (forall n, In n ns -> In n ins) ->
+    pinsert_all dbg ovf nl nr data L ns = POk (L', cs) -> FullOk ins L'.
+  Proof.
+    intros ins. induction ns as [|n ns IH]; intros L L' cs HF Hs H; cbn [pinsert_all] in H.
+    - inversion H; subst. exact HF.
+    - destruct (pinsert dbg ovf nl nr data L n) as [[L1 c]| | |] eqn:E; cbn [pbind fst snd] in H; try discriminate H.
+      destruct (pinsert_all dbg ovf nl nr data L1 ns) as [[L2 cs2]| | |] eqn:E2; cbn [pbind fst snd] in H; try discriminate H.
+      inversion H; subst. eapply IH; [|intros; apply Hs; right; eassumption|exact E2].
+      eapply pinsert_full; [exact HF | apply Hs; left; reflexivity | exact E].
+  Qed.
+
+  Lemma pnodes_full : forall ins L ids xs, FullOk ins L -> pnodes L ids = POk xs -> Forall (fun n => In n ins) (map fst xs).
+  Proof.
+    intros ins L. induction ids as [|id ids IH]; intros xs HF H; cbn [pnodes] in H.
+    - inversion H; subst. constructor.
+    - destruct (pnode L id) as [[n t]| | |] eqn:E; cbn [pbind] in H; try discriminate H.
+      destruct (pnodes L ids) as [ys| | |] eqn:E2; cbn [pbind] in H; try discriminate H.
+      inversion H; subst. cbn [map fst]. constructor; [|exact (IH _ HF eq_refl)].
+      unfold pnode in E. unfold idx in E.
+      destruct (nth_error (p_full L) (fst id)) as [fr|] eqn:E3; cbn [pbind] in E; [|discriminate E].
+      destruct (nth_error fr (snd id)) as [m|] eqn:E4; cbn [pbind] in E; [|discriminate E].
+      destruct (nth_error (p_ends L) (fst id)) as [er|]; cbn [pbind] in E; [|discriminate E].
+      destruct (nth_error er (snd id)) as [v|]; cbn [pbind] in E; [|discriminate E].
+      inversion E; subst. apply (HF (fst id)). unfold row. rewrite (nth_error_nth _ _ _ E3). exact (nth_error_In _ _ E4).
+  Qed.
+
+  (* what resolve_best_path iterates over: no index panic, and every node is one of the inserted candidates *)
+  Theorem pround_path_ok : forall L0 len ns, round_wf nl nr data (len, ns) = true ->
+    okp ovf (fun p => Forall (fun n => In n ns) p) (pround_path dbg ovf nl nr data L0 len ns).
+  Proof.
+    intros L0 len ns Hwf. pose proof Hwf as Hwf0. unfold round_wf in Hwf. cbn [fst snd] in Hwf. repeat rewrite andb_true_iff in Hwf.
+    destruct Hwf as [[[[H1 H2] H3] H4] H5]. apply Nat.leb_le in H1. apply N.leb_le in H2.
+    unfold pround_path. destruct (preset_inv nl nr data Hm L0 len ns H3 H5) as (L1 & E1 & HI1 & _). rewrite E1. cbn [pbind].
+    assert (HF1 : FullOk ns L1).
+    { unfold preset in E1. unfold push_idx in E1. destruct (push_at _ 0 _); cbn [pbind] in E1; [|discriminate E1].
+      inversion E1; subst. intros r n Hn. cbn [p_full] in Hn. rewrite (proj2 (reset_vec_spec _ _) r) in Hn. contradiction. }
+    pose proof (pinsert_all_inv dbg ovf nl nr data Hm len ns L1 HI1 H3 H4 H2) as Hins.
+    destruct (pinsert_all dbg ovf nl nr data L1 ns) as [[L2 cs]| s | |] eqn:E2; cbn [okp pbind fst snd] in *; try contradiction; [|exact Hins].
+    destruct Hins as [HI2 _]. pose proof (pinsert_all_full ns ns L1 L2 cs HF1 (fun n H => H) E2) as HF2.
+    pose proof (pconnect_eos_inv dbg ovf nl nr data Hm len [] L2 HI2 H2) as Heos.
+    destruct (pconnect_eos dbg ovf nl nr data L2) as [[L3 b]| s | |] eqn:E3; cbn [okp pbind fst snd] in *; try contradiction; [|exact Heos].
+    destruct Heos as [HI3 He]. destruct b; [|cbn [okp]; constructor].
+    assert (HF3 : FullOk ns L3).
+    { unfold pconnect_eos in E3. rewrite (i_size _ _ _ _ HI2) in E3.
+      destruct (pconnect_node dbg ovf nl nr data L2 _) as [[best c]| | |]; cbn [pbind snd] in E3; try discriminate E3.
+      destruct (c =? MAX32)%Z; inversion E3; subst; exact HF2. }
+    destruct (pfill_top_path_ok nl len [] L3 HI3 H1 (He eq_refl)) as (ids & -> & Hv). cbn [pbind].
+    destruct (pnodes_ok nl len [] L3 HI3 (rev ids)) as [xs Ex]; [apply Forall_rev; exact Hv|]. rewrite Ex. cbn [pbind okp].
+    exact (pnodes_full ns L3 (rev ids) xs HF3 Ex).
+  Qed.
+End PathNodes.
+
 (* without overflow checks (release profile) the additions wrap: nothing panics at all *)
 Theorem lattice_no_panic_release : forall dbg nl nr data, matrix_ok nl nr data = true ->
   forall rs L0, forallb (round_wf nl nr data) rs = true -> exists r, prounds dbg false nl nr data L0 rs = POk r.
